@@ -191,6 +191,71 @@ def r4_metadata_split(ctx, rep):
     rep.ob("meta_preprocessor present", True, "", py.nloc(mp), nontrivial=False)
 
 
+def r6_shared_values_copied(ctx, rep):
+    """line_to_variables reads the doc block and parses type/attributes once per statement and hands the
+    same objects to every variable of the statement; the constructor must copy what is later mutated in
+    place (doc_list by read_metadata/meta_preprocessor, proto by correlate, attribs by process_attribs)."""
+    py = ctx.py
+    ltv = py.func("sourceform.line_to_variables")
+    loop = [n for n in ast.walk(ltv) if isinstance(n, ast.For) and any(
+        isinstance(c, ast.Call) and call_name(c) == "FortranVariable" for c in ast.walk(n))]
+    if not loop:
+        raise AnalysisError("line_to_variables: per-declaration loop not found")
+    call = [c for c in ast.walk(loop[0]) if isinstance(c, ast.Call) and call_name(c) == "FortranVariable"][0]
+    init = py.func("FortranVariable.__init__")
+    params = [a.arg for a in init.args.args][1:]
+    passed = {params[i]: ast.unparse(a) for i, a in enumerate(call.args) if i < len(params)}
+    for attr, param in (("doc_list", "doc"), ("proto", "proto"), ("attribs", "attribs")):
+        asg = [n for n in ast.walk(init) if isinstance(n, ast.Assign) and ast.unparse(n.targets[0]) == f"self.{attr}"]
+        if not asg:
+            raise AnalysisError(f"FortranVariable.__init__: self.{attr} assignment not found")
+        v = ast.unparse(asg[0].value)
+        copied_in_ctor = bool(re.search(r"copy\.(copy|deepcopy)\(%s\)|list\(%s\)|%s\[:\]" % (param, param, param), v))
+        copied_at_call = bool(re.search(r"copy\.(copy|deepcopy)\(|list\(", passed.get(param, "")))
+        shared = param in passed and not re.search(r"^(None|''|\"\")$", passed[param])
+        ok = copied_in_ctor or copied_at_call or not shared
+        rep.ob(f"FortranVariable.{attr} is a private copy of the per-statement value", ok,
+               f"self.{attr} = {v}" if ok else
+               f"`self.{attr} = {v}` stores the object that line_to_variables passes to every variable of the "
+               f"statement (`{passed.get(param)}`): the first variable's in-place processing (metadata stripping, type "
+               f"resolution) changes what the other variables of the same declaration see", py.nloc(asg[0]))
+
+
+def r7_meta_key_guard(ctx, rep):
+    py = ctx.py
+    mp = py.func("utils.meta_preprocessor")
+    loop = [n for n in mp.body if isinstance(n, ast.While)]
+    if not loop:
+        raise AnalysisError("meta_preprocessor: loop not found")
+    n = 0
+    for c in ast.walk(loop[0]):
+        if isinstance(c, ast.Call) and ast.unparse(c.func) == "meta[key].append":
+            n += 1
+            # dominated by an assignment to key in the same block, or guarded by a test of key
+            p = c
+            guarded = False
+            while p is not loop[0]:
+                child = p
+                p = py.parents[p]
+                if isinstance(p, ast.If) and child in p.body:
+                    t = ast.unparse(p.test)
+                    if re.search(r"\band key\b|\bkey is not None\b|^key$|\bkey and\b", t):
+                        guarded = True
+                    blk = p.body
+                    idx = blk.index(child) if child in blk else 0
+                    if any(isinstance(s, ast.Assign) and ast.unparse(s.targets[0]) == "key" for s in blk[:idx]):
+                        guarded = True
+            rep.ob(f"meta_preprocessor: meta[key].append #{n} has an open key", guarded,
+                   "a continuation line is only taken when a metadata key is open" if guarded else
+                   "`meta[key].append(...)` can run while key is None: a doc comment whose first line is indented by four "
+                   "blanks (a code block) is swallowed as metadata of key None and dropped", py.nloc(c))
+    t = ast.unparse(loop[0])
+    ok = "lines.insert(0, line)" in t and "break" in t
+    rep.ob("meta_preprocessor: the first non-metadata line is put back", ok, "", py.nloc(loop[0]))
+    if n == 0:
+        raise AnalysisError("meta_preprocessor: no meta[key].append found")
+
+
 def r5_index_after_delete(ctx, rep):
     py = ctx.py
     n = 0
@@ -240,4 +305,6 @@ RULES = [
     RuleSpec("C03.R3", r3_declared_types, "settings fields used at their declared type", floor=1),
     RuleSpec("C03.R4", r4_metadata_split, "metadata split before rendering", floor=4),
     RuleSpec("C03.R5", r5_index_after_delete, "no list index reused after deletion (admonitions)", floor=1),
+    RuleSpec("C03.R6", r6_shared_values_copied, "per-statement values are copied per variable", floor=3),
+    RuleSpec("C03.R7", r7_meta_key_guard, "metadata continuation needs an open key", floor=2),
 ]
